@@ -39,6 +39,7 @@ type Engine struct {
 	liveCache  map[*ssa.Function]map[*ssa.BasicBlock]map[ssa.Value]bool
 	instIfaces map[string]*types.Named
 	verdictDecls []string
+	selfIface  types.Type
 }
 
 // liveIn returns the set of SSA values live on entry to block b (phi results of b included:
